@@ -161,6 +161,21 @@ def m_fmt_args(sim, st, c):
     return Opaque("FmtArgs", (const_str_val(sim, st, c["args"][0]),))
 
 
+@pattern(r"^(core|std)::fmt::rt::Argument::<'_>::new_\w+$")
+def m_fmt_argument(sim, st, c):
+    return Opaque("FmtArg", (c["args"][0],))
+
+
+@pattern(r"^std::fmt::Arguments::<'a>::new_v1")
+def m_fmt_args_v1(sim, st, c):
+    try:
+        pieces = sim.resolve(st, deref_arg(sim, st, c["args"][0]))
+        msg = "".join(str(p.val) for p in getattr(pieces, "elems", []) if isinstance(p, Const)) or "formatted message"
+    except Exception:
+        msg = "formatted message"
+    return Opaque("FmtArgs", (msg,))
+
+
 @pattern(r"^std::panicking::panic_")
 def m_panic_other(sim, st, c):
     raise S.SimPanic("panic", c["fn"]["pretty"], c["span"])
@@ -446,6 +461,11 @@ TRAIT_FALLBACK = {
     ("AddAssign", "add_assign"): assign_fallback("Add"), ("SubAssign", "sub_assign"): assign_fallback("Sub"),
     ("MulAssign", "mul_assign"): assign_fallback("Mul"), ("DivAssign", "div_assign"): assign_fallback("Div"),
     ("Neg", "neg"): unop_fallback("Neg"), ("Not", "not"): unop_fallback("Not"),
+    ("Rem", "rem"): binop_fallback("Rem"), ("BitAnd", "bitand"): binop_fallback("BitAnd"), ("BitOr", "bitor"): binop_fallback("BitOr"),
+    ("BitXor", "bitxor"): binop_fallback("BitXor"), ("Shl", "shl"): binop_fallback("Shl"), ("Shr", "shr"): binop_fallback("Shr"),
+    ("RemAssign", "rem_assign"): assign_fallback("Rem"), ("BitAndAssign", "bitand_assign"): assign_fallback("BitAnd"),
+    ("BitOrAssign", "bitor_assign"): assign_fallback("BitOr"), ("BitXorAssign", "bitxor_assign"): assign_fallback("BitXor"),
+    ("ShlAssign", "shl_assign"): assign_fallback("Shl"), ("ShrAssign", "shr_assign"): assign_fallback("Shr"),
     ("Clone", "clone"): m_clone_unresolved, ("Default", "default"): m_default_unresolved,
     ("PartialEq", "eq"): m_eq_unresolved,
 }
@@ -887,6 +907,14 @@ def m_rc_clone(sim, st, c):
     return v
 
 
+@pattern(r"^std::(rc::Rc|sync::Arc)::<T, A>::ptr_eq$")
+def m_rc_ptr_eq(sim, st, c):
+    a, b = deref_arg(sim, st, c["args"][0]), deref_arg(sim, st, c["args"][1])
+    if a == b:
+        return Const(True, prim("bool"))
+    return Term("ptr_eq", tuple(sorted((a, b), key=repr)), prim("bool"))      # two handles may or may not share a target: decided (forked) when branched on
+
+
 @pattern(r"^std::sync::(RwLock|Mutex)::<T>::(read|write|lock)$")
 def m_lock(sim, st, c):
     p = sim.deref_value(st, c["args"][0])
@@ -1076,6 +1104,47 @@ def m_opt_unwrap_or_else(sim, st, c):
     if v.vname == "None":
         return call_closure(sim, st, c, c["args"][1], [])
     return v.fields[0]
+
+
+@model("std::result::Result::<T, E>::or")
+def m_res_or(sim, st, c):
+    v = sim.force_variant(st, c["args"][0])
+    if v.vname == "Ok":
+        return sim.mk_enum(c["ret_ty"], "Ok", [v.fields[0]])
+    return c["args"][1]
+
+
+@model("std::result::Result::<T, E>::and")
+def m_res_and(sim, st, c):
+    v = sim.force_variant(st, c["args"][0])
+    if v.vname == "Err":
+        return sim.mk_enum(c["ret_ty"], "Err", [v.fields[0]])
+    return c["args"][1]
+
+
+@model("std::option::Option::<T>::and")
+def m_opt_and(sim, st, c):
+    v = sim.force_variant(st, c["args"][0])
+    return sim.mk_enum(c["ret_ty"], "None") if v.vname == "None" else c["args"][1]
+
+
+@pattern(r"^std::convert::num::<impl std::convert::TryFrom<(i|u)(8|16|32|64|128|size)> for (i|u)(8|16|32|64|128|size)>::try_from$")
+def m_int_try_from(sim, st, c):
+    """Checked integer conversion: whether the value fits is a property of the value, so both outcomes are explored for a symbolic
+    operand; the Ok payload is the value itself (no truncation happens on that path)."""
+    v = sim.resolve(st, c["args"][0])
+    tgt = c["ret_ty"]["args"][0]
+    if isinstance(v, Const) and isinstance(v.val, int):
+        fits = S.wrap_int(v.val, tgt) == v.val
+        return sim.mk_enum(c["ret_ty"], "Ok", [Const(v.val, tgt)]) if fits else sim.mk_enum(c["ret_ty"], "Err", [Sym("try_from_int_error", c["ret_ty"]["args"][1])])
+    key = ("int_try_from", repr(v), ty_str(tgt))
+    got = st.consts.get(key)
+    if got is None:
+        raise S.Fork([(("fits", repr(v), ty_str(tgt)), (lambda s_, k=key: s_.consts.__setitem__(k, "fits"))),
+                      (("overflows", repr(v), ty_str(tgt)), (lambda s_, k=key: s_.consts.__setitem__(k, "no")))])
+    if got == "fits":
+        return sim.mk_enum(c["ret_ty"], "Ok", [v])
+    return sim.mk_enum(c["ret_ty"], "Err", [Sym("try_from_int_error", c["ret_ty"]["args"][1])])
 
 
 @model("std::option::Option::<T>::or")
